@@ -4,7 +4,7 @@ sys.path.insert(0, os.path.dirname(os.path.dirname(os.path.abspath(__file__))))
 import ast
 import z3
 from pyvc import xreal as xr
-from pyvc.numexec import Unsupported
+from pyvc.numexec import Unsupported, ANALYSIS
 from pyvc.termrun import sym_params, run_membership, is_monotonic_source
 from pyvc.solve import Obl, static, undecided
 from pyvc.runner import main
@@ -23,7 +23,7 @@ def build(run):
         try:
             if is_monotonic_source(src, c):
                 mono_src.append(c)
-        except Unsupported as ex_:
+        except ANALYSIS as ex_:
             run.add(undecided(f"term.{c}.is_monotonic/subset", str(ex_)))
     run.add(static("term/monotonic.classes", sorted(mono_src) == sorted(C.MONOTONIC), f"is_monotonic() is True for {sorted(mono_src)}; contracts: {sorted(C.MONOTONIC)}"))
     # the structural terms (an activated term, an aggregated fuzzy set) are terms as well: they do not declare themselves monotonic and refuse like the others
@@ -32,7 +32,7 @@ def build(run):
         try:
             if c in src.subclasses("term", "Term") and is_monotonic_source(src, c):
                 struct_mono.append(c)
-        except Unsupported as ex_:
+        except ANALYSIS as ex_:
             run.add(undecided(f"term.{c}.is_monotonic/subset", str(ex_)))
     for c in terms + [c_ for c_ in sorted(structural) if c_ in src.subclasses("term", "Term")]:
         owner = src.resolve_method(c, "tsukamoto")[1]       # looked up through the MRO read from the source
@@ -78,7 +78,7 @@ def build(run):
             inc, dec = tc.monotone(A, P)
             run.add(Obl(f"{fq}/ensures.monotone", pre + [iny(y2), y.v <= y2.v] + ax.axioms(),
                         z3.And(z3.Implies(inc, xr.le(z, z2)), z3.Implies(dec, xr.ge(z, z2))), fn=fq, meta=dict(rp("tsukamoto.monotone", ["y", "y2"]), **uf())))
-        except Unsupported as ex_:
+        except ANALYSIS as ex_:
             run.add(undecided(f"{fq}/subset", f"outside the verified subset: {ex_}", fn=fq,
                               meta={"replay": {"module": "contracts.terms", "func": "replay_sampled", "kwargs": {"cls": cls, "what": "tsukamoto", "budget": 200}, "vars": {}}}))
     nb = 60 if run.tier == "quick" else 1500
